@@ -214,3 +214,150 @@ class Agent:
     # convenience for harness oracles
     def requests(self):
         return [e for e in self.log if "msg" in e]
+
+
+# ---------------------------------------------------------------------------
+# SNMPv3 / USM agent (RFC 3412 message processing, RFC 3414 security)
+# ---------------------------------------------------------------------------
+
+
+class V3Agent(Agent):
+    """Authoritative SNMPv3 engine.  ``clock()`` returns the current virtual
+    time in seconds; snmpEngineTime is derived from it."""
+
+    def __init__(self, db, users, engine_id=b"\x80\x00\x1f\x88\x04agent1", clock=None, boots=7, strict_level=True):
+        super().__init__(db)
+        from . import usm
+
+        self.usm = usm
+        self.users = {u.name: u for u in users}
+        self.engine_id = engine_id
+        self.clock = clock or (lambda: 0.0)
+        self.boots = boots
+        self.boot_instant = self.clock() - 1000.0  # engine time starts at 1000
+        self.strict_level = strict_level
+        self.stats = {k: 0 for k in usm.USM_STATS}
+        self.msg_hook = None  # (agent, req_msg, dict(msg_id=..)) -> dict
+        self.max_size = 65507
+        self.time_skew = 0  # added to the engine time put into responses
+
+    @property
+    def engine_time(self):
+        return int(self.clock() - self.boot_instant)
+
+    def reboot(self):
+        self.boots += 1
+        self.boot_instant = self.clock()
+
+    # ------------------------------------------------------------------
+    def _report(self, req, stat, level_user=None, request_id=0):
+        """Report PDU.  level_user: a User -> authenticated report
+        (notInTimeWindow), else noAuthNoPriv."""
+        self.stats[stat] += 1
+        pdu = snmp.pdu_node(
+            snmp.PDU_REPORT, request_id, 0, 0,
+            [(self.usm.USM_STATS[stat], ("c32", self.stats[stat]))],
+        )
+        user = level_user.name if level_user else req["usm"]["user"]
+        return self._wrap(req, pdu, level_user, 1 if level_user else 0, user, req.get("scoped", {}).get("context_engine_id", self.engine_id), req.get("scoped", {}).get("context_name", b""))
+
+    def _wrap(self, req, pdu_node, user, level, user_name, ctx_engine, ctx_name, msg_id=None):
+        usm = self.usm
+        fields = {"msg_id": req["msg_id"] if msg_id is None else msg_id, "flags": level, "engine_id": self.engine_id,
+                  "boots": self.boots, "time": self.engine_time + self.time_skew, "user": user_name}
+        if self.msg_hook is not None:
+            fields = self.msg_hook(self, req, fields)
+        scoped = snmp.scoped_pdu_node(ctx_engine, ctx_name, pdu_node)
+        level = fields["flags"] & 3
+        salt = b""
+        payload = scoped
+        if level & 2:
+            plug = usm.priv_plugin(user.priv[0])
+            ct, salt = plug.encrypt_data(user.priv_key(self.engine_id), self.engine_id, fields["boots"], fields["time"], scoped.encode())
+            payload = ber.n_str(bytes(ct))
+        auth_ph = b"\x00" * 12 if level & 1 else b""
+        sp = snmp.usm_params_node(fields["engine_id"], fields["boots"], fields["time"], fields["user"], auth_ph, bytes(salt))
+        node = snmp.v3_msg_node(fields["msg_id"], self.max_size, fields["flags"], 3, sp.encode(), payload)
+        if self.length_form:
+            for n in node.walk():
+                n.form = self.length_form
+        out = node.encode()
+        if level & 1:
+            out = usm.sign(user.auth[0], user.auth_key(self.engine_id), out)
+        return out
+
+    # ------------------------------------------------------------------
+    def handle(self, datagram: bytes) -> bytes:
+        usm = self.usm
+        entry: Dict[str, Any] = {"raw": datagram, "v3": True}
+        self.log.append(entry)
+        try:
+            msg = snmp.dec_message(datagram)
+        except BerError as exc:
+            entry["verdict"] = "malformed: %s" % exc
+            raise Drop(entry["verdict"])
+        if msg["version"] != 3:
+            entry["verdict"] = "bad version"
+            raise Drop("version")
+        entry["msg"] = msg
+        entry["engine_boots"] = self.boots
+        entry["engine_time"] = self.engine_time
+        flags = msg["flags"]
+        reportable = bool(flags & 4)
+        sp = msg["usm"]
+        if msg["sec_model"] != 3 or (flags & 3) == 2:
+            entry["verdict"] = "bad header"
+            raise Drop("header")
+        rid = msg["scoped"]["pdu"]["request_id"] if "scoped" in msg else 0
+        if "scoped" in msg:
+            entry["pdu"] = msg["scoped"]["pdu"]
+
+        def finish(verdict, out):
+            entry["verdict"] = verdict
+            if out is None:
+                raise Drop(verdict)
+            if self.bytes_hook is not None:
+                out = self.bytes_hook(self, datagram, out)
+            entry["sent"] = out
+            return out
+
+        if sp["engine_id"] != self.engine_id:
+            entry["discovery"] = sp["engine_id"] == b"" and sp["user"] == b"" and (flags & 3) == 0
+            return finish("unknown-engine-id", self._report(msg, "unknownEngineIDs", None, rid) if reportable else None)
+        user = self.users.get(sp["user"])
+        if user is None:
+            return finish("unknown-user", self._report(msg, "unknownUserNames", None, rid) if reportable else None)
+        entry["user"] = user.name
+        level = flags & 3
+        if (level & 1 and not user.auth) or (level & 2 and not user.priv):
+            return finish("unsupported-level", self._report(msg, "unsupportedSecLevels", None, rid) if reportable else None)
+        if level & 1:
+            if len(sp["auth"]) != 12 or usm.compute_digest(user.auth[0], user.auth_key(self.engine_id), datagram, msg) != sp["auth"]:
+                return finish("wrong-digest", self._report(msg, "wrongDigests", None, rid) if reportable else None)
+            if not usm.in_time_window(self.boots, self.engine_time, sp["boots"], sp["time"]):
+                return finish("not-in-time-window", self._report(msg, "notInTimeWindows", user, rid) if reportable else None)
+        if level & 2:
+            plug = usm.priv_plugin(user.priv[0])
+            try:
+                clear = plug.decrypt_data(user.priv_key(self.engine_id), self.engine_id, sp["boots"], sp["time"], sp["priv"], msg["encrypted"])
+                # block ciphers leave padding behind the scoped PDU
+                node = ber.parse(bytes(clear))
+                scoped = snmp.dec_scoped_pdu(node)
+            except (BerError, ValueError, IndexError) as exc:
+                return finish("decryption-error", self._report(msg, "decryptionErrors", None, 0) if reportable else None)
+            entry["decrypted"] = bytes(clear)[: node.end]
+            entry["padding"] = bytes(clear)[node.end :]
+            msg["scoped"] = scoped
+            entry["pdu"] = scoped["pdu"]
+        if self.strict_level and level != user.level:
+            # access control (VACM) configured for exactly the user's level
+            return finish("level-below-configured", self._report(msg, "unsupportedSecLevels", None, rid) if reportable else None)
+        scoped = msg["scoped"]
+        pdu = scoped["pdu"]
+        entry["reportable"] = reportable
+        try:
+            resp = self.process_pdu(pdu, 1, entry)
+        except Drop as d:
+            return finish("dropped: %s" % d, None)
+        out = self._wrap(msg, self.pdu_to_node(resp), user, level, user.name, scoped["context_engine_id"], scoped["context_name"], msg_id=resp.get("msg_id"))
+        return finish("ok", out)
